@@ -39,3 +39,9 @@ import pygal_sched_loop  # noqa: E402
 # taskiq/cli/scheduler/run.py: get_schedules, get_all_schedules, delayed_send and one iteration of run_scheduler_loop (C15),
 # monadic backend over PyStm.v / PyPreludeLoop.v
 SPECS["sched_loop"] = pygal_sched_loop.SPEC
+
+import pygal_load_gate  # noqa: E402
+
+# taskiq/serialization.py: the load side - exception_to_python and what it calls (C20), monadic backend over PyStm.v /
+# PyPreludeLoadGate.v; the generated exception_to_python_py is a structural Fixpoint on the payload tree
+SPECS["load_gate"] = pygal_load_gate.SPEC
